@@ -172,11 +172,11 @@ def run(ctx):
             label="MC_Dtd construction vs acceptor", timeout=1500)
     res = ctx.tlc("MC_Dtd", "run.cfg", workers=1, simulate=f"num={ctx.pick(260, 6000)}", depth=10,
                   extra_files={"run.cfg": "SPECIFICATION Spec\nCONSTANTS\n  MaxDocIdx = 6\nCONSTRAINT Emit\nCHECK_DEADLOCK FALSE\n"},
-                  label="Gen_Dtd DTDs and documents", tags=("DTD",), timeout=3000)
+                  label="Gen_Dtd DTDs and documents", tags=("DTD",), require_cases=True, timeout=3000)
     # the fixed corpus (reproducers of fixed defects, nested sequence groups inside choices): replayed in every run
     corpus = ctx.tlc("MC_Dtd", "run.cfg", workers=1,
                      extra_files={"run.cfg": "INIT InitCorpus\nNEXT Next\nCONSTANTS\n  MaxDocIdx = 6\nCONSTRAINT Emit\nCHECK_DEADLOCK FALSE\n"},
-                     label="Gen_Dtd fixed corpus", tags=("DTD",), timeout=1500)
+                     label="Gen_Dtd fixed corpus", tags=("DTD",), require_cases=True, timeout=1500)
     groups = {}
     for _t, c in list(corpus.printed) + list(res.printed):
         key = json.dumps([c["root"], c["attrs"], c["variant"]], sort_keys=True)
